@@ -1409,6 +1409,32 @@ fn gen_case(rng: &mut Rng, n: usize, tier: &str, scratch: &std::path::Path, out:
                     ops.push(key_op(*rng.pick(&[Esc, Enter, Tab]), none));
                     ops.push(key_op(Enter, none));
                 }
+                _ if !selecting && !setup.abbr.is_empty() && rng.chance(1, 4) => {
+                    // easy-symbol input: an abbreviation key (Shift + letter of swkb.dat) pressed with the cursor in the
+                    // MIDDLE of the buffer expands to several characters at the cursor, the cursor ends right after
+                    // them, and the next key / Backspace acts there (seeded change C05-E)
+                    let mut o = opts_vec(&ed.editor_options());
+                    o[0] = 1;
+                    o[8] = 0;
+                    ops.push(Op::Opts(o));
+                    for _ in 0..(2 + rng.below(3)) {
+                        let i = rng.below(world.syls.len() as u64) as usize;
+                        for k in &world.keys[i] {
+                            ops.push(key_op(*k, none));
+                        }
+                    }
+                    for _ in 0..(1 + rng.below(3)) {
+                        ops.push(key_op(Left, none));
+                    }
+                    let (ch, _) = setup.abbr[rng.below(setup.abbr.len() as u64) as usize].clone();
+                    let code = ALL_CODES.iter().position(|c| Qwerty.map_with_mod(*c, Modifiers { shift: true, ..none }).unicode == ch || Qwerty.map(*c).unicode == ch);
+                    if let Some(ci) = code {
+                        let shift = Qwerty.map(ALL_CODES[ci]).unicode != ch;
+                        ops.push(key_op(ALL_CODES[ci], Modifiers { shift, ..none }));
+                        ops.push(match rng.below(3) { 0 => key_op(Backspace, none), 1 => key_op(Del, none), _ => key_op(Comma, Modifiers { shift: true, ..none }) });
+                    }
+                    ops.push(Op::Get(1));
+                }
                 _ if !selecting && rng.chance(1, 6) => {
                     // the buffer at its limit after a key that pushed text out (the commit string is not empty); then - no
                     // key and no ack in between - the limit is lowered and a choice made through the API pushes out more:
